@@ -21,6 +21,9 @@ mod c08;
 mod c09;
 mod c10;
 mod c18;
+mod idl;
+mod c13;
+mod c14;
 
 use cfg::Cfg;
 
@@ -35,6 +38,7 @@ fn main() {
     }
     let cfg = Cfg::parse(&args[2..]);
     vnet::trace::install();
+    vnet::install_quiet_panic_hook();
     let name = args[1].as_str();
     if name == "noop" {
         return;
@@ -52,6 +56,8 @@ fn main() {
         "c09" => c09::run(&cfg),
         "c10" => c10::run(&cfg),
         "c18" => c18::run(&cfg),
+        "c13" => c13::run(&cfg),
+        "c14" => c14::run(&cfg),
         _ => {
             eprintln!("unknown monitor {name}");
             std::process::exit(2);
